@@ -104,6 +104,22 @@ class RandomScheduler(Scheduler):
         return gates[rng.randrange(len(gates))]
 
     def decide(self, sim, point, forced, gates, can_tick, boundary):
+        acts = self._decide(sim, point, forced, gates, can_tick, boundary)
+        burst = self.p.get('burst', 1)
+        if burst > 1 and acts and acts[0][0] == 'arrive' and len(gates) > 1 and self.rng.random() < 0.5:
+            # several completions collected by one select() call: they arrive back to back
+            acts = list(acts)
+            rest = [g for g in gates if g.label != acts[0][1]]
+            for _ in range(burst - 1):
+                if not rest:
+                    break
+                g = self._pick(sim, rest)
+                rest = [x for x in rest if x is not g]
+                acts.append(('arrive', g.label))
+            return tuple(acts)
+        return acts
+
+    def _decide(self, sim, point, forced, gates, can_tick, boundary):
         rng = self.rng
         p = self.p
         if self.name == 'priority' and point in self.flip_at:
@@ -200,6 +216,7 @@ def make_scheduler(rng: random.Random, node_names=()):
         'q': rng.choice([0.0, 0.05, 0.15, 0.3, 0.6, 0.9]),
         'qb': rng.choice([0.0, 0.1, 0.3, 0.7]),
         'tick_pref': rng.choice([0.05, 0.3, 0.5, 0.7, 0.95]),
+        'burst': rng.choice([1, 1, 2, 3]),
     }
     if pol == 'starve' and node_names:
         k = rng.randint(1, max(1, len(node_names) // 2))
